@@ -500,9 +500,7 @@ func abstractRun(a *absCtx, r *ScenarioRun, drvDir string) ([]map[string]any, er
 				if st == nil {
 					return nil, inconclusive("scenario %s: event for unknown step %q", s.ID, e.ID)
 				}
-				if e.Panic != "" {
-					return nil, inconclusive("scenario %s: driver call panicked: %s", s.ID, e.Panic)
-				}
+
 				var c *Cfg
 				if st.Cfg != "" {
 					c = cfgs[st.Cfg]
@@ -527,6 +525,7 @@ func abstractRun(a *absCtx, r *ScenarioRun, drvDir string) ([]map[string]any, er
 				rec["mfail"] = mf
 				rec["lossless"] = losslessJSON(a, st, e, logKind(logs))
 				rec["nm"] = len(st.Matchers)
+				rec["panic"] = e.Panic != "" // the call did not return: a real behaviour, judged by the contract
 				rec["bufsame"] = true
 				if st.Val != nil && (st.Val.K == "bytes" || st.Val.K == "rawmsg") && e.Buf != "" {
 					rec["bufsame"] = e.Buf == st.Val.B64
